@@ -51,11 +51,21 @@ func GenUsage(t *rapid.T, c *Case, pool string, genMat func(*rapid.T) MatSpec) {
 	if rapid.IntRange(0, 4).Draw(t, "oversize-matrix") == 0 {
 		c.Oversize = rapid.IntRange(1, 3).Draw(t, "oversize")
 	}
-	if rapid.IntRange(0, 4).Draw(t, "matrix-reused") == 0 {
+	large := (len(c.R)+1)*(len(c.Q)+1) >= 65536
+	reuse := rapid.IntRange(0, 4).Draw(t, "matrix-reused") == 0
+	if large {
+		// for a large table the earlier use is large as well (whatever is kept between two calls
+		// of an aligner - a pooled table, a cached matrix - is then still warm), and more frequent
+		reuse = rapid.Bool().Draw(t, "matrix-reused-large")
+	}
+	if reuse {
 		pm := genMat(t)
 		c.PreMat = &pm
 		b := func(label string) string {
 			n := rapid.IntRange(1, 8).Draw(t, label+"-len")
+			if large {
+				n = rapid.IntRange(257, 420).Draw(t, label+"-len-large")
+			}
 			x := make([]byte, n)
 			for i := range x {
 				x[i] = pool[rapid.IntRange(0, len(pool)-1).Draw(t, label)]
